@@ -86,29 +86,71 @@ Fixpoint unknowns (pol : policy) (s : stmt) : list string :=
 Definition diagnose (pol : policy) (funs : funtab) (entries : list string) : list string :=
   flat_map (fun p => map (fun u => fst p ++ ": " ++ u) (unknowns pol (snd p))) (reachable_funs pol funs entries).
 
-(** Package-level variables (the translator writes them global.<name>): the ones below are
-    initialised once and only read afterwards. Any other package-level variable touched by an
-    analysed function is unknown to the policies, so the obligation fails: no mutex of one
-    object can guard state shared by all objects. *)
-Definition global_guards : list (string * guard) :=
-  [ ("global.keySchema", Immutable); ("global.keyNextRowID", Immutable); ("global.keyPrefixValue", Immutable);
-    ("global.lruCacheItemSize", Immutable); ("global.listElementSize", Immutable) ].
+(** * Inferred guards.
+
+    The soundness theorems of Conc.v hold for ANY policy under which the check succeeds: the
+    guard table only has to be consistent with the code, it is not a trusted description of it
+    (trusted are only the [Unshared] declarations and the effects of calls into other
+    packages).  So the table is mostly computed from the skeletons: a location that no
+    function reachable from the entry points writes is [Immutable]; a written field of a
+    struct with exactly one mutex (the translator lists them, [gen_mutexes]) is guarded by
+    that mutex; a written location of anything else (a struct without mutex, a package-level
+    variable [global.x]) has no guard and fails the check unless the explicit table gives
+    one.  Renaming fields, locals or the mutex, and adding fields or helper methods, therefore
+    does not disturb the obligations as long as the discipline is kept. *)
+Fixpoint written_locs (eff : string -> string -> option effect) (s : stmt) : list string :=
+  match s with
+  | Acc loc true => [loc]
+  | Call loc m => match eff loc m with Some EWrite => [loc] | _ => [] end
+  | Seq a b | Branch a b => written_locs eff a ++ written_locs eff b
+  | Loop a => written_locs eff a
+  | _ => []
+  end.
+
+Fixpoint struct_of (loc : string) : string :=
+  match loc with
+  | EmptyString => EmptyString
+  | String c r => if Ascii.eqb c "."%char then EmptyString else String c (struct_of r)
+  end.
+
+(** The mutex of a struct, or a name no code can hold (the check then fails). *)
+Definition mutex_of (mutexes : list (string * string)) (t : string) : string :=
+  match assoc t mutexes with Some m => m | None => "<no unique mutex in " ++ t ++ ">" end.
+
+(** Calls: a direct call of a package method, else the explicit table, else — when the method
+    name is not one the analysed packages define ([methods], listed by the translator) — a
+    method of another package's type, taken to modify the object it is called on (the most
+    demanding reading: it needs the lock exclusively).  A call of a package method through a
+    field must be resolved explicitly (its body has to be analysed). *)
+Definition mk_policy_inferred (explicit : list (string * guard)) (effects : list (string * string * effect))
+    (mutexes : list (string * string)) (methods : list string) (funs : funtab) (entries : list string) : policy :=
+  let eff := fun loc meth =>
+    match direct_call loc meth with
+    | Some e => Some e
+    | None => match assoc2 loc meth effects with
+              | Some e => Some e
+              | None => if mem_str meth methods then None else Some EWrite
+              end
+    end in
+  let reach := reachable_funs {| guard_of := fun _ => None; effect_of := eff |} funs entries in
+  let written := flat_map (fun p => written_locs eff (snd p)) reach in
+  {| guard_of := fun loc =>
+       match assoc loc explicit with
+       | Some g => Some g
+       | None =>
+           if mem_str loc written
+           then match assoc (struct_of loc) mutexes with Some m => Some (GuardedBy m) | None => None end
+           else Some Immutable
+       end;
+     effect_of := eff |}.
 
 (** * C04: queries, schema reads and the LRU cache used concurrently on one open index *)
-Definition policy_C04 : policy := mk_policy (global_guards ++
-  [ (* an Index is immutable after OpenIndex *)
-    ("Index.metrics", Immutable); ("Index.schema", Immutable); ("Index.nextRowID", Immutable);
-    ("Index.values", Immutable); ("Index.cache", Immutable);
-    ("schema.Columns", Immutable);
-    ("preloadedColGetter.values", Immutable); ("onDemandColGetter.db", Immutable);
-    (* the cache serialises its own state *)
-    ("LRUCache.entries", GuardedBy "LRUCache.mtx"); ("LRUCache.lruList", GuardedBy "LRUCache.mtx");
-    ("LRUCache.curSize", GuardedBy "LRUCache.mtx");
-    ("LRUCache.maxSize", Immutable); ("LRUCache.metrics", Immutable);
-    (* a Query value belongs to the goroutine that executes it; expression trees are read-only *)
-    ("Query.GroupBy", Unshared); ("Query.groupByFields", Unshared); ("Query.Expr", Unshared);
-    ("ExprEqual.Column", Immutable); ("ExprEqual.Value", Immutable); ("ExprNot.Expr", Immutable);
-    ("ExprAnd.Exprs", Immutable); ("ExprOr.Exprs", Immutable) ])
+Definition entries_C04 : list string := ["Index.Execute"; "Index.GetSchema"; "LRUCache.Get"; "LRUCache.Put"].
+
+Definition policy_C04 (mutexes : list (string * string)) (methods : list string) (funs : funtab) : policy := mk_policy_inferred
+  [ (* a Query value belongs to the goroutine that executes it (its expression tree is only
+       read: a write to a field of an Expr* node is a write to a struct without mutex) *)
+    ("Query.GroupBy", Unshared); ("Query.groupByFields", Unshared); ("Query.Expr", Unshared) ]
   [ ("Index.cache", "Get", ECall "Cache.Get"); ("Index.cache", "Put", ECall "Cache.Put");
     ("Index.values", "GetCol", ECall "colGetter.GetCol"); ("Index.values", "GetCardinality", ERead);
     ("Query.Expr", "eval", ECall "Expression.eval"); ("Query.Expr", "GetCardinality", ERead);
@@ -116,51 +158,39 @@ Definition policy_C04 : policy := mk_policy (global_guards ++
     ("ExprOr.Exprs", "eval", ECall "Expression.eval");
     ("ExprNot.Expr", "cacheKey", ECall "Expression.cacheKey"); ("ExprAnd.Exprs", "cacheKey", ECall "Expression.cacheKey");
     ("ExprOr.Exprs", "cacheKey", ECall "Expression.cacheKey");
-    ("LRUCache.lruList", "MoveToFront", EWrite); ("LRUCache.lruList", "PushFront", EWrite);
-    ("LRUCache.lruList", "Remove", EWrite); ("LRUCache.lruList", "Back", ERead); ("LRUCache.lruList", "Len", ERead);
+    (* container/list, bbolt, atomic and roaring methods called under a lock need no entry: the
+       default reading (modifies the object) holds there *)
     (* trusted to be safe for concurrent use: metric sinks, bbolt read transactions *)
-    ("LRUCache.metrics", "Inc", ENone); ("Index.metrics", "Observe", ENone); ("onDemandColGetter.db", "View", ENone) ].
-
-Definition entries_C04 : list string := ["Index.Execute"; "Index.GetSchema"; "LRUCache.Get"; "LRUCache.Put"].
-Definition funs_C04 : list string :=
-  entries_C04 ++
-  ["LRUCache.evict"; "Query.populateGroupBy"; "Query.groupBy";
-   "ExprEqual.eval"; "ExprNot.eval"; "ExprAnd.eval"; "ExprOr.eval";
-   "ExprEqual.cacheKey"; "ExprNot.cacheKey"; "ExprAnd.cacheKey"; "ExprOr.cacheKey";
-   "nullCache.Get"; "nullCache.Put"; "onDemandColGetter.GetCol"; "preloadedColGetter.GetCol";
-   "Cache.Get"; "Cache.Put"; "colGetter.GetCol"; "Expression.eval"; "Expression.cacheKey"].
+    ("LRUCache.metrics", "Inc", ENone); ("Index.metrics", "Observe", ENone); ("onDemandColGetter.db", "View", ENone) ]
+  mutexes methods funs entries_C04.
 
 (** * C18: AddRow called concurrently on one writer *)
-Definition policy_C18_mem : policy := mk_policy (global_guards ++
-  [ ("IndexWriter.nextRowID", GuardedBy "IndexWriter.mtx"); ("IndexWriter.schema", GuardedBy "IndexWriter.mtx");
-    ("IndexWriter.values", GuardedBy "IndexWriter.mtx"); ("IndexWriter.getValueBitmap()", GuardedBy "IndexWriter.mtx");
-    ("schema.Columns", GuardedBy "IndexWriter.mtx") ])
-  [ ("IndexWriter.schema", "add", ECall "schema.add"); ("IndexWriter.getValueBitmap()", "Add", EWrite) ].
+Definition entries_C18_mem : list string := ["IndexWriter.AddRow"].
+Definition entries_C18_big : list string := ["BigIndexWriter.AddRow"].
 
-Definition policy_C18_big : policy := mk_policy (global_guards ++
-  [ ("BigIndexWriter.nextRowID", GuardedBy "BigIndexWriter.mtx"); ("BigIndexWriter.schema", GuardedBy "BigIndexWriter.mtx");
-    ("BigIndexWriter.tempTx", GuardedBy "BigIndexWriter.mtx"); ("BigIndexWriter.tempDB", GuardedBy "BigIndexWriter.mtx");
-    ("BigIndexWriter.db", Immutable);
-    ("schema.Columns", GuardedBy "BigIndexWriter.mtx") ])
+Definition policy_C18_mem (mutexes : list (string * string)) (methods : list string) (funs : funtab) : policy := mk_policy_inferred
+  [ (* the schema object belongs to the writer *)
+    ("schema.Columns", GuardedBy (mutex_of mutexes "IndexWriter")) ]
+  [ ("IndexWriter.schema", "add", ECall "schema.add") ]
+  mutexes methods funs entries_C18_mem.
+
+Definition policy_C18_big (mutexes : list (string * string)) (methods : list string) (funs : funtab) : policy := mk_policy_inferred
+  [ ("schema.Columns", GuardedBy (mutex_of mutexes "BigIndexWriter")) ]
   [ ("BigIndexWriter.schema", "add", ECall "schema.add");
-    ("BigIndexWriter.tempTx", "Bucket", ERead); ("BigIndexWriter.tempTx", "Put", EWrite);
-    ("BigIndexWriter.tempTx", "Commit", EWrite); ("BigIndexWriter.tempDB", "Begin", ERead) ].
-
-Definition funs_C18_mem : list string := ["IndexWriter.AddRow"; "IndexWriter.getValueBitmap"; "schema.add"].
-Definition funs_C18_big : list string := ["BigIndexWriter.AddRow"; "schema.add"].
+    (* Put, Commit and Begin are also method names of these packages: bbolt's here *)
+    ("BigIndexWriter.tempTx", "Put", EWrite); ("BigIndexWriter.tempTx", "Commit", EWrite); ("BigIndexWriter.tempDB", "Begin", ERead) ]
+  mutexes methods funs entries_C18_big.
 
 (** * C17: the driver's connection cache *)
-Definition policy_C17 : policy := mk_policy (global_guards ++
-  [ ("updogDriver.fileConnCache", GuardedBy "updogDriver.fileConnMtx");
-    ("fileConn.idx", GuardedBy "updogDriver.fileConnMtx"); ("fileConn.refs", GuardedBy "updogDriver.fileConnMtx");
-    ("fileConn.key", Immutable); ("fileConn.d", Immutable) ])
-  [ ("fileConn.d", "release", ECall "updogDriver.release");
-    ("fileConn.idx", "Close", EWrite); ("updogDriver.fileConnCache", "Close", EWrite);
-    ("fileConn.refs", "Add", EWrite); ("fileConn.refs", "Load", ERead);
-    ("updogDriver.fileConnCache", "Add", EWrite); ("updogDriver.fileConnCache", "Load", ERead) ].
-
 Definition entries_C17 : list string := ["updogDriver.openFile"; "fileConn.Close"].
-Definition funs_C17 : list string := entries_C17 ++ ["updogDriver.release"].
+
+Definition policy_C17 (mutexes : list (string * string)) (methods : list string) (funs : funtab) : policy := mk_policy_inferred
+  [ (* a shared connection's index pointer and reference count belong to the driver's cache *)
+    ("fileConn.idx", GuardedBy (mutex_of mutexes "updogDriver")); ("fileConn.refs", GuardedBy (mutex_of mutexes "updogDriver")) ]
+  [ ("fileConn.d", "release", ECall "updogDriver.release");
+    (* Close is also a method name of this package: *updog.Index.Close ends the connection's index *)
+    ("fileConn.idx", "Close", EWrite); ("updogDriver.fileConnCache", "Close", EWrite) ]
+  mutexes methods funs entries_C17.
 
 (** The largest number of acquisitions of lock [l] on any path through a skeleton (calls of
     analysed functions inlined up to [fuel]; a loop that acquires counts as "many").  An entry
